@@ -519,6 +519,9 @@ def r_window(F, V):
         else:
             R.inst(p, "%d (partial op, later callback) pairs, each guarded/fresh" % npairs if npairs else "partial ops and callbacks present, no callback after a partial op",
                    "ok", True, where(body), pairs=npairs)
+    R.info["callback sites in all bodies"] = sum(len(V.callback_sites(b)) for b in F.bodies.values())
+    R.info["bodies with a callback site"] = sum(1 for b in F.bodies.values() if V.callback_sites(b))
+    R.info["primitive partial-operation sites"] = sum(len(partial_op_sites(V, b)) for b in F.bodies.values())
     R.floor("bodies mixing primitive partial operations and callbacks", mixed, {"posctl": 1}.get(F.cfg, 4))
     return R
 
